@@ -1,7 +1,7 @@
 """Oracle self-tests; a failure makes a check INCONCLUSIVE, never a violation."""
 import importlib
 
-ALL = ("wcag", "csscolor", "cielab", "oklab", "ciede2000")
+ALL = ("wcag", "csscolor", "cielab", "oklab", "ciede2000", "htmldom")
 
 
 def run(names=None):
@@ -16,6 +16,6 @@ def run(names=None):
 
 if __name__ == "__main__":
     import sys
-    err = run(ALL + ("cssmodel", "htmldom"))
+    err = run(ALL)
     print("oracle self-tests:", err or "ok")
     sys.exit(1 if err else 0)
